@@ -383,6 +383,21 @@ func genCase(rng *rand.Rand, exhaust int) *ncase {
 			}
 		}
 		c.Steps = append(c.Steps, step{K: "out", Src: keep, Dst: keepRem, Size: 8}, step{K: "in", Src: keepRem, Dst: "@0", Size: 4})
+		// after the wrap-around: keys whose mappings expired long ago (their ports now belong to later, live mappings) are used
+		// again; the live mappings must keep working and fresh allocations must not collide with them
+		dstOf := func(k int) string { return fmt.Sprintf("5.6.%d.%d:%d", 8+k/60000, 1+(k/250)%250, 1000+k%250) }
+		for k := 0; k < 150; k++ {
+			c.Steps = append(c.Steps, step{K: "out", Src: "192.168.0.11:4001", Dst: dstOf(k), Size: 1})
+		}
+		for k := total - 80; k < total; k++ {
+			c.Steps = append(c.Steps, step{K: "in", Src: dstOf(k), Dst: fmt.Sprintf("@%d", 1+k), Size: 2})
+		}
+		for j := 0; j < 80; j++ {
+			c.Steps = append(c.Steps, step{K: "out", Src: "192.168.0.12:4002", Dst: fmt.Sprintf("7.7.7.%d:%d", 1+j%200, 2000+j), Size: 1})
+		}
+		for k := total - 80; k < total; k += 7 {
+			c.Steps = append(c.Steps, step{K: "in", Src: dstOf(k), Dst: fmt.Sprintf("@%d", 1+k), Size: 2})
+		}
 		return c
 	}
 	n := 50 + rng.Intn(350)
